@@ -90,6 +90,7 @@ CFGS_QUICK = [
     dict(name='fault-grid', H=1800, dur=2 * 3600, report=3600, time_control=True),
     dict(name='fault-concrete', H=3600, dur=3 * 3600, report=7200, time_control=False),
     dict(name='fault-report-nonmultiple', H=3600, dur=4 * 3600, report=9000, time_control=False),   # 9000 is not a multiple of 3600: documented reduction to 7200
+    dict(name='fault-report-finer-than-H', H=3600, dur=3600, report=1200, time_control=True),     # the run works on the report step (documented reduction of the hydraulic step)
     dict(name='storm', H=3600, dur=2 * 3600, report='ALL', storm=True, storm_from=1, trials=2),
     dict(name='storm-first-step', H=3600, dur=3600, report=3600, storm=True, storm_from=0, trials=3),
 ]
@@ -141,6 +142,13 @@ def check_cfg(rep, cfg):
             step_failed = (failed['k'] is not None and not (backup and backup_ok))
             storm = bool(cfg.get('storm'))
             res = out['res']
+            if ref['raised'] is not None and not storm:
+                problems.append('the run without any failed step raised: %s' % ref['raised'])
+                if 'structure' not in bad:
+                    bad.add('structure')
+                    m_ = symx.satisfiable(cons)
+                    rep.counterexample('c16/%s/structure' % tag, dict(_inputs(m_.model, path), cfg=cfg, why=problems[0]), 'fault')
+                continue
             if step_failed or storm:
                 if conv:
                     if out['raised'] is None:
@@ -282,7 +290,9 @@ def replay_fault(i):
             core._solver_helper = real_helper
     if cfg.get('storm'):
         return _storm_real(cfg, conv)
-    ref, _, _ = go(False)
+    ref, ref_exc, _ = go(False)
+    if ref is None:
+        return 'the run without any failed step raised %s: %s' % (type(ref_exc).__name__, ref_exc)
     res, exc, warned = go(True)
     hit = fail_at >= 0 and state['n'] > fail_at and not (backup and backup_ok)
     if hit:
